@@ -82,7 +82,7 @@ def names_at(path, offs, bgzf):
     return out, ok
 
 
-def battery(d, tag, nodes, links, recs, reads, gs, fs, block, eol="\n"):
+def battery(d, tag, nodes, links, recs, reads, gs, fs, block, eol="\n", zsuf=".gz"):
     """run every GAF/graph consuming command under one configuration; returns {cmd: (status, value, resolved)}"""
     res = {}
     bg = gs == "bgzf"
@@ -92,7 +92,7 @@ def battery(d, tag, nodes, links, recs, reads, gs, fs, block, eol="\n"):
     write_text(raw, gfa_text(nodes, links, False), "gz" if fs == "gz" else "plain")
     # the plain GAF and its BGZF copy sit side by side under one name (in.gaf / in.gaf.gz), as they do for a user who
     # compresses a file next to the original; every derived file of a configuration carries its tag
-    gaf = os.path.join(d, "in.gaf" + (".gz" if bg else ""))
+    gaf = os.path.join(d, "in.gaf" + (zsuf if bg else ""))      # compressed GAFs are recognised by content: .gz, .bgz, .GZ
     write_text(gaf, "\n".join(recs) + eol, gs, block=block)      # eol "": the last record is not newline-terminated
     fa = os.path.join(d, f"{tag}.fa")
     with open(fa, "w") as f:
@@ -141,7 +141,7 @@ def battery(d, tag, nodes, links, recs, reads, gs, fs, block, eol="\n"):
         put("index_stable", r, val, okall)
     # sort (plain and bgzip output) + gsi
     for ob in (False, True):
-        o = os.path.join(d, f"{tag}_sorted{int(ob)}.gaf" + (".gz" if ob else ""))
+        o = os.path.join(d, f"{tag}_sorted{int(ob)}.gaf" + (".gz" if ob and zsuf == ".gz" else ""))      # --bgzip adds no suffix of its own
         r = run_cli(["sort", gaf, gfa, "--outgaf", o] + (["--bgzip"] if ob else []))
         val, ok = "", True
         if r["status"] == "ok" and not (os.path.exists(o) and os.path.exists(o + ".gsi")):
@@ -216,10 +216,14 @@ def run_session(job):
             recs, reads = r2, rd2
             align_line_start(recs, 65536)
         cfgs = [("plain", "gfa"), ("bgzf", "gfa"), ("plain", "gz"), ("bgzf", "gz")]
-        per = [battery(d, f"c{k}", nodes, links, recs, reads, gs, fs, block, "" if seed % 3 == 1 else "\n") for k, (gs, fs) in enumerate(cfgs)]
+        import readers
+
+        readers.SALT = sid      # the four configurations are run with the same form of every command line
+        zsuf = [".gz", ".gz", ".bgz", ".GZ"][seed % 4]
+        per = [battery(d, f"c{k}", nodes, links, recs, reads, gs, fs, block, "" if seed % 3 == 1 else "\n", zsuf) for k, (gs, fs) in enumerate(cfgs)]
         # late queries: after every configuration has been indexed and used, ask the first two again WITHOUT re-indexing
         for k, (gs, fs) in enumerate(cfgs):
-            gaf = os.path.join(d, "in.gaf" + (".gz" if gs == "bgzf" else ""))
+            gaf = os.path.join(d, "in.gaf" + (zsuf if gs == "bgzf" else ""))
             for qi, args in enumerate([["-n", "r1"], ["-r", "chr1:5-40"]]):
                 o = os.path.join(d, f"late{k}_{qi}")
                 r = run_cli(["view", gaf, "-o", o] + args)
@@ -228,12 +232,15 @@ def run_session(job):
                 if per[k][f"lateview{qi}"]["status"] == "exit":
                     per[k][f"lateview{qi}"]["status"] = "ok"
         cases = []
-        nblocks = len(bgzf_blocks(os.path.join(d, "in.gaf.gz")))
+        nblocks = len(bgzf_blocks(os.path.join(d, "in.gaf" + zsuf)))
         for cmd in per[0]:
             cases.append({"id": f"{sid}.{cmd}", "cmd": cmd, "nblocks": nblocks,
                           "results": [dict(per[k].get(cmd, {"status": "missing", "value": "", "resolved": False}), cfg=f"{gs}_{fs}") for k, (gs, fs) in enumerate(cfgs)]})
         return cases
     finally:
+        import readers
+
+        readers.SALT = None
         shutil.rmtree(d, ignore_errors=True)
 
 
